@@ -238,6 +238,9 @@ func (s *Sim) execTL(ev *TLEvent) {
 		s.mon.onFault("tl:"+ev.Kind, ev.Host)
 	}
 	sv := s.mysql.servers[ev.Host]
+	if sv != nil {
+		sv.lastWorldChange = s.now()
+	}
 	switch ev.Kind {
 	case "kill_daemon":
 		if d := s.liveByHost[ev.Host]; d != nil {
@@ -399,6 +402,8 @@ func (s *Sim) execTL(ev *TLEvent) {
 		if sv != nil {
 			sv.events = append(sv.events, slaveEvent{"db1", "ev1", "user@host"})
 		}
+	case "touch_resetup":
+		os.WriteFile(filepath.Join(s.hostDir(ev.Host), "resetup"), []byte{}, 0o644)
 	case "resetup": // external tooling rebuilds the host as an empty replica of the recorded master
 		s.doResetup(ev.Host)
 	case "cli_switch_to":
